@@ -167,6 +167,17 @@ def _register_observable(new_observable, version=DEFAULT_VERSION):
     OBJ_MAP_OBSERVABLE[new_observable._type] = new_observable
 
 
+def _validate_extension_type(ext_type, version):
+    """Check the name of an extension type against the naming rules."""
+    _validate_type(ext_type, version)
+    if version == "2.1":
+        if not (ext_type.endswith('-ext') or ext_type.startswith('extension-definition--')):
+            raise ValueError(
+                "Invalid extension type name '%s': must end with '-ext' or start with 'extension-definition--<UUID>'." %
+                ext_type,
+            )
+
+
 def _register_extension(
     new_extension, version=DEFAULT_VERSION,
 ):
@@ -180,13 +191,7 @@ def _register_extension(
     """
     ext_type = new_extension._type
 
-    _validate_type(ext_type, version)
-    if version == "2.1":
-        if not (ext_type.endswith('-ext') or ext_type.startswith('extension-definition--')):
-            raise ValueError(
-                "Invalid extension type name '%s': must end with '-ext' or start with 'extension-definition--<UUID>'." %
-                ext_type,
-            )
+    _validate_extension_type(ext_type, version)
 
     tl_props = getattr(new_extension, "_toplevel_properties", None)
     if any((
